@@ -27,8 +27,6 @@ func main() {
 		"events":  driveEvents,
 		"faults":  driveFaults,
 		"updates": driveUpdates,
-		// exploratory, not part of any check
-		"stallprobe": driveStallProbe,
 	})
 }
 
